@@ -109,8 +109,40 @@ pub trait Wrap: Node + Sized + 'static {
     /// nodes that are not `Send` (dyn closures, dyn Signal): unavailable behind `BoxedNodeSend`
     fn wrap_local<T: Node + 'static>(t: T) -> Option<Self>;
     fn wrap_graph(gn: GraphNode<Graph<NodeData<Self>, ()>, Self>) -> Self;
+    /// Node data through one of the library's constructors (`variant` picks among the applicable
+    /// ones: `new`, the silent short-hands `new1` / `new2`, and for `BoxedNode` the `boxed*` family).
+    fn data(node: Self, init: f32, nbuf: usize, variant: i64) -> NodeData<Self> {
+        let silent = init == 0.0;
+        match (silent, nbuf, variant.rem_euclid(2)) {
+            (true, 1, 1) => NodeData::new1(node),
+            (true, 2, 1) => NodeData::new2(node),
+            _ => NodeData::new(node, vec![Buffer::from([init; LEN]); nbuf]),
+        }
+    }
+    /// Take the wrapper apart and put it together again through its conversions (identity).
+    fn reassemble(self) -> Self {
+        self
+    }
 }
 impl Wrap for BoxedNode {
+    fn data(node: Self, init: f32, nbuf: usize, variant: i64) -> NodeData<Self> {
+        let silent = init == 0.0;
+        // the wrapper is itself a node: `boxed*` box it once more
+        match (silent, nbuf, variant.rem_euclid(4)) {
+            (true, 1, 1) => NodeData::new1(node),
+            (true, 2, 1) => NodeData::new2(node),
+            (true, 1, 2) => NodeData::boxed1(node),
+            (true, 2, 2) => NodeData::boxed2(node),
+            (_, _, 3) => NodeData::boxed(node, vec![Buffer::from([init; LEN]); nbuf]),
+            _ => NodeData::new(node, vec![Buffer::from([init; LEN]); nbuf]),
+        }
+    }
+    fn reassemble(mut self) -> Self {
+        // DerefMut reaches the boxed node; Into hands the box out
+        let _: &mut Box<dyn Node> = &mut *self;
+        let b: Box<dyn Node> = self.into();
+        BoxedNode(b)
+    }
     const NAME: &'static str = "BoxedNode";
     fn wrap<T: Node + Send + 'static>(t: T) -> Self {
         BoxedNode::new(t)
@@ -123,6 +155,11 @@ impl Wrap for BoxedNode {
     }
 }
 impl Wrap for BoxedNodeSend {
+    fn reassemble(mut self) -> Self {
+        let _: &mut Box<dyn Node + Send> = &mut *self;
+        let b: Box<dyn Node + Send> = self.into();
+        BoxedNodeSend(b)
+    }
     const NAME: &'static str = "BoxedNodeSend";
     fn wrap<T: Node + Send + 'static>(t: T) -> Self {
         BoxedNodeSend::new(t)
@@ -604,7 +641,8 @@ fn drive<W: Wrap, G: GraphLike<W>>(src: &mut Source, obs: &mut Observer) -> Resu
                 obs.tick(op.k);
                 obs.note(kind as u64 * 8 + nbuf as u64);
                 next_tag += 1;
-                let idx = g.add(NodeData::new(node, vec![Buffer::from([init; LEN]); nbuf]));
+                let node = if (op.c / 8) % 3 == 0 { node.reassemble() } else { node };
+                let idx = g.add(W::data(node, init, nbuf, op.c / 2));
                 m.add_at(idx.index(), model);
                 if kind == K_DELAY && m.slots[idx.index()].as_ref().unwrap().delay.iter().any(|d| d.len() > LEN) {
                     obs.probe(P_DELAY_LONGER_THAN_BUFFER);
